@@ -13,12 +13,14 @@ import (
 
 func init() {
 	Registry["C09"] = Spec{
-		Pkgs: map[string][]string{"v2": {"plan", "postprocess", "gqlds", "astnorm", "astminify", "resolve"}, "execution": {"engine"}},
+		Pkgs: map[string][]string{"v2": {"plan", "postprocess", "gqlds", "astnorm", "astminify", "resolve", "ast"}, "execution": {"engine"}},
 		Run:  runC09,
 		Explanation: "Decides the structural half of 'planning is deterministic and caching is transparent': in the planning packages no range over a map feeds range-derived data into an ordered sink (append to an outer slice that is not sorted afterwards, write to a writer/builder/hash) except at sites frozen with a reason; " +
 			"at run time (packages resolve and execution/engine) no field of a cached plan node is assigned outside constructors (frozen: the tracing field); the plan cache stores a plan only after planning reported no error and after post-processing, under a key that is the hash of the printed operation; a planner is created per cache miss and pooled planning kits are reset before they return to the pool; " +
 			"per-request outputs of normalization (the variables remap) are never backed by pooled, reused storage. It does not decide option transparency (value level).",
 		Mutants: []Mutant{
+			{Name: "the nested data source transforms the shared upstream schema in place (reverts the F63 fix)", File: "v2/pkg/engine/datasource/graphql_datasource/graphql_datasource.go", Rule: "C09-R9", Key: "Planner.printOperation/shared-upstream-schema-read-only",
+				Old: "\townDefinition, err := p.config.upstreamSchemaCopy()\n\tif err != nil {\n\t\treturn nil, err\n\t}\n", New: "\townDefinition := definition\n"},
 			{Name: "forwarded extensions printed while ranging over the map (reverts the F46 fix)", File: "v2/pkg/engine/resolve/resolvable.go", Rule: "C09-R8", Key: "Resolvable.printExtensions/map-range-does-not-print",
 				Old: "\t\tfor counter, key := range keys {\n\t\t\tvalue := r.allowedExtensions[key]\n", New: "\t\t_ = keys\n\t\tcounter := -1\n\t\tfor key, value := range r.allowedExtensions {\n\t\t\tcounter++\n"},
 			{Name: "subscription filter reads the raw variables under the canonical name (reverts the F31 fix)", File: "v2/pkg/engine/resolve/subscription_filter.go", Rule: "C09-R7", Key: "SkipEvent/direct-lookup-in-Context.Variables",
@@ -59,6 +61,7 @@ type mapRangeSite struct {
 }
 
 func runC09(r *fw.Run) {
+	defer c09SharedUpstreamSchemaIsReadOnly(r)
 	p := r.Prog
 	r.Rule("C09-R1", "no range over a map in the planning packages appends range-derived data to an outer slice that is not sorted afterwards, nor writes it to a writer/builder/hash (frozen exceptions carry a reason)")
 	// every entry was read on the pinned tree; the reason says why iteration order cannot reach the plan
@@ -1008,4 +1011,161 @@ func c09ResponseBytesIndependentOfMapOrder(r *fw.Run) {
 		})
 	}
 	r.Pass("C09-R8", "map-ranges-of-the-renderer-scanned", "-", itoa(nRanges)+" ranges over maps in Resolvable methods examined", nRanges > 0)
+}
+
+// c09SharedUpstreamSchemaIsReadOnly (R9): Configuration.UpstreamSchema() hands out the one parsed schema document of a data
+// source; every planner the engine creates for that data source — for this operation, for later ones, on other
+// goroutines — gets the same pointer. A planner that transforms it plans the next operation against a different schema
+// ("plans depend on earlier plans"), and two planners doing so race. The rule: a value that derives from
+// UpstreamSchema() is never the receiver of a mutating method of ast.Document and never handed to a parameter that is
+// mutated. "Mutating method" is computed, not listed: a method of *ast.Document whose body writes through its receiver
+// (assignment, append, delete, ++ rooted at it) or calls such a method on it (fixed point over package ast); "mutated
+// parameter" likewise over the functions of the data source package.
+func c09SharedUpstreamSchemaIsReadOnly(r *fw.Run) {
+	p := r.Prog
+	r.Rule("C09-R9", "in the GraphQL data source a document obtained from Configuration.UpstreamSchema() (shared by every planner of the data source) is never mutated: not the receiver of a mutating ast.Document method, not passed to a parameter that is mutated")
+	isDocPtr := func(t types.Type) bool {
+		pt, ok := t.(*types.Pointer)
+		return ok && fw.TypeIs(pt.Elem(), "ast", "Document")
+	}
+	// 1. mutating methods of *ast.Document
+	mutRecv := map[*types.Func]bool{}
+	var docMethods []*fw.FuncInfo
+	for _, fi := range p.Funcs("ast") {
+		if recv := receiverObj(fi); recv != nil && isDocPtr(recv.Type()) {
+			docMethods = append(docMethods, fi)
+		}
+	}
+	writesThrough := func(fi *fw.FuncInfo, o types.Object, mutCallee func(*types.Func, int) bool) bool {
+		info := fi.Info()
+		found := false
+		fw.WalkAll(fi.Decl.Body, func(nd ast.Node) bool {
+			if found {
+				return false
+			}
+			for _, t := range fw.WriteTargets(info, nd) {
+				if t == nil {
+					continue
+				}
+				if _, plain := ast.Unparen(t).(*ast.Ident); plain {
+					continue // re-binding the variable itself is not a write through it
+				}
+				if fw.RootObj(info, t) == o {
+					found = true
+				}
+			}
+			if c, ok := nd.(*ast.CallExpr); ok {
+				fn := fw.Callee(info, c)
+				if fn == nil {
+					return true
+				}
+				if sel, isSel := ast.Unparen(c.Fun).(*ast.SelectorExpr); isSel {
+					if id, isID := ast.Unparen(sel.X).(*ast.Ident); isID && info.ObjectOf(id) == o && mutCallee(fn, -1) {
+						found = true
+					}
+				}
+				for i, a := range c.Args {
+					if id, isID := ast.Unparen(a).(*ast.Ident); isID && info.ObjectOf(id) == o && mutCallee(fn, i) {
+						found = true
+					}
+				}
+			}
+			return true
+		})
+		return found
+	}
+	for changed := true; changed; {
+		changed = false
+		for _, fi := range docMethods {
+			if mutRecv[fi.Obj] {
+				continue
+			}
+			if writesThrough(fi, receiverObj(fi), func(fn *types.Func, i int) bool { return i == -1 && mutRecv[fn] }) {
+				mutRecv[fi.Obj] = true
+				changed = true
+			}
+		}
+	}
+	nMut := 0
+	for range mutRecv {
+		nMut++
+	}
+	// 2. mutated *ast.Document parameters of the data source package
+	type pk struct {
+		fn  *types.Func
+		idx int
+	}
+	mutParam := map[pk]bool{}
+	mutCallee := func(fn *types.Func, i int) bool {
+		if i == -1 {
+			return mutRecv[fn]
+		}
+		return mutParam[pk{fn, i}]
+	}
+	for changed := true; changed; {
+		changed = false
+		for _, fi := range p.Funcs("gqlds") {
+			sig := fi.Obj.Type().(*types.Signature)
+			for i := 0; i < sig.Params().Len(); i++ {
+				if !isDocPtr(sig.Params().At(i).Type()) || mutParam[pk{fi.Obj, i}] {
+					continue
+				}
+				if writesThrough(fi, sig.Params().At(i), mutCallee) {
+					mutParam[pk{fi.Obj, i}] = true
+					changed = true
+				}
+			}
+		}
+	}
+	// 3. uses of the shared document
+	n := 0
+	for _, fi := range p.Funcs("gqlds") {
+		info := fi.Info()
+		isShared := func(e ast.Expr) bool {
+			c, ok := e.(*ast.CallExpr)
+			if !ok {
+				return false
+			}
+			fn := fw.Callee(info, c)
+			return fn != nil && fn.Name() == "UpstreamSchema" && fn.Pkg() != nil && fn.Pkg().Path() == fw.PkgPath("gqlds")
+		}
+		uses := false
+		fw.WalkAll(fi.Decl.Body, func(nd ast.Node) bool {
+			if e, ok := nd.(ast.Expr); ok && isShared(e) {
+				uses = true
+			}
+			return true
+		})
+		if !uses {
+			continue
+		}
+		n++
+		d := newLocalDeriver(fi)
+		bad := ""
+		fw.WalkAll(fi.Decl.Body, func(nd ast.Node) bool {
+			c, ok := nd.(*ast.CallExpr)
+			if !ok {
+				return true
+			}
+			fn := fw.Callee(info, c)
+			if fn == nil {
+				return true
+			}
+			if sel, isSel := ast.Unparen(c.Fun).(*ast.SelectorExpr); isSel && mutRecv[fn] {
+				if _, isID := ast.Unparen(sel.X).(*ast.Ident); isID && d.Derives(sel.X, isShared) {
+					bad = fn.Name() + " at " + p.Pos(c.Pos())
+				}
+			}
+			for i, a := range c.Args {
+				if _, isID := ast.Unparen(a).(*ast.Ident); isID && mutParam[pk{fn, i}] && d.Derives(a, isShared) {
+					bad = "handed to " + fn.Name() + ", which mutates it, at " + p.Pos(c.Pos())
+				}
+			}
+			return true
+		})
+		r.Check(bad == "", "C09-R9", fi.Name()+"/shared-upstream-schema-read-only", p.Pos(fi.Decl.Pos()), "the upstream schema document "+fi.Name()+" obtains from the configuration is only read",
+			"the document returned by Configuration.UpstreamSchema() is mutated ("+bad+"): it is the one schema document shared by every planner of the data source, so the next operation is planned against a transformed schema (plans depend on earlier plans) and concurrent planners race on it")
+	}
+	r.Expect("C09-R9", "functions of graphql_datasource that obtain the shared upstream schema", n, 2)
+	r.Note("C09-R9: %d mutating methods of *ast.Document computed", nMut)
 }
